@@ -28,3 +28,13 @@ Lemma series4_val dt wx wy wz w x y z : w*w+x*x+y*y+z*z = 1 -> wx*wx+wy*wy+wz*wz
   0 < qnorm2 (series_vec 4 dt wx wy wz [w;x;y;z]) ->
   C08_series4_R dt wx wy wz w x y z = Val (qnormalize (series_vec 4 dt wx wy wz [w;x;y;z])).
 Proof. intros H NZ P. cbv beta delta [C08_series4_R]. series_core H NZ P 4%nat dt wx wy wz w x y z. Qed.
+
+(* the order-1 series step is the dead-reckoning step q + dt/2 q(x)(0,w) of the filters (no bound on the rate needed:
+   |(I + S) q|^2 = 1 + h^2 > 0) *)
+Lemma series1_is_dr dt wx wy wz w x y z : w*w+x*x+y*y+z*z = 1 -> wx*wx+wy*wy+wz*wz <> 0 ->
+  C08_series1_R dt wx wy wz w x y z = Val (qnormalize (dr_step dt wx wy wz [w;x;y;z])).
+Proof.
+  intros H NZ. rewrite dr_step_is_order1. fold (hS dt wx wy wz). rewrite <- series_vec_is_partial_sum by lia.
+  apply series1_val; auto. rewrite series_vec_norm2. replace (qnorm2 [w;x;y;z]) with 1 by (unfold_rot; lra).
+  cbv [ak bk Nat.ltb Nat.leb]. pose proof (uu_ge0 dt wx wy wz). nra.
+Qed.
